@@ -54,6 +54,9 @@ def cases(tier, seed):
                 if tier == "quick" and rnd.random() < 0.0 and (pb, db) != ([2], []):
                     continue
                 yield {"kind": "kernel", "kernel": spec, "pbatch": pb, "dbatch": db, "seed": rnd.randrange(10**6)}
+        for spec in ({"k": "periodic"}, {"k": "cosine"}, {"k": "pp", "q": 1}, {"k": "matern", "nu": 1.5}, {"k": "rbf"}, {"k": "rq"}):
+            for pb, db in (([], [2]), ([2], [2]), ([3], [3])):
+                yield {"kind": "kernel", "kernel": spec, "pbatch": pb, "dbatch": db, "far": True, "seed": rnd.randrange(10**6)}
         for pb, db in pairs:
             for mean in ("constant", "linear"):
                 yield {"kind": "mean", "mean": mean, "pbatch": pb, "dbatch": db, "seed": rnd.randrange(10**6)}
@@ -122,6 +125,12 @@ def _kernel(case, ctx, g):
     kern = util.build_kernel(case["kernel"], D, pb)
     util.randomize(kern, g, 0.6)
     x1, x2 = util.randn(g, *db, 4, D), util.randn(g, *db, 3, D)
+    if case.get("far"):
+        # many rows, every batch element in its own far-away region: an element's values must not depend on where the
+        # OTHER elements live (shared shifts / normalisations)
+        x1, x2 = util.randn(g, *db, 30, D), util.randn(g, *db, 27, D)
+        off = 3e4 * (1 + torch.arange(x1.shape[0], dtype=torch.double)).reshape(-1, *([1] * (x1.dim() - 1))) if db else 3e4
+        x1, x2 = x1 + off, x2 + off
     try:
         with torch.no_grad():
             K = kern(x1, x2).to_dense()
@@ -137,7 +146,7 @@ def _kernel(case, ctx, g):
         _load_slice(kern, rep, b, full)
         with torch.no_grad():
             ref = rep(_sl(x1, db, b, full), _sl(x2, db, b, full)).to_dense()
-        ctx.close("kernel_replica", Ke[b], ref, "direct", cls="kernel:" + case["kernel"]["k"], element=list(b), pbatch=pb, dbatch=db)
+        ctx.close("kernel_replica", Ke[b], ref, "direct" if not case.get("far") else (1e-7, 1e-7), cls="kernel:" + case["kernel"]["k"] + (":far" if case.get("far") else ""), element=list(b), pbatch=pb, dbatch=db)
     ctx.cell(*_cell(case, full))
 
 
